@@ -33,6 +33,7 @@ package spine
 //@   ensures[C15] async-only: forall d int :: old(spawnn) <= d && d < spawnn ==> spawnfn[d] == HE
 //@   ensures[C15] log-older: forall d int :: d < old(spawnn) ==> spawnfn[d] == old(spawnfn)[d] && spawnarg(d, 0, api.ResponseMessage) == old(spawnarg(d, 0, api.ResponseMessage))
 //@   ensures[C15] locks-released: !held(r.mu) && !held(r.muHandle)
+//@   ensures[C15] locks-kept: locksUnchanged()
 //@   modifies @PUBLISH, held
 //@   loop 0 invariant o-snap: forall i int :: 0 <= i && i < len(S) ==> handler[i] == old(S[i])
 //@   loop 0 invariant o-len: len(handler) == len(S)
@@ -139,9 +140,9 @@ package spine
 //@   let L0 = c.bindingEntries
 //@   define kept(e) = !onEntity(e.ClientFeature, remoteEntity)
 //@   filter F loop 0 src L0 keep kept
-//@   ensures[C10,C06] nil-noop: remoteEntity == nil ==> c.bindingEntries == L0 && evn == old(evn)
-//@   ensures[C10,C06] view: remoteEntity != nil ==> len(c.bindingEntries) == Fcnt(len(L0)) && forall j int :: 0 <= j && j < len(L0) && kept(L0[j]) ==> c.bindingEntries[Fcnt(j)] == old(L0[j])
-//@   ensures[C10,C06] events: remoteEntity != nil ==> evn == old(evn) + (len(L0) - Fcnt(len(L0)))
+//@   ensures[C10,C06,C09] nil-noop: remoteEntity == nil ==> c.bindingEntries == L0 && evn == old(evn)
+//@   ensures[C10,C06,C09] view: remoteEntity != nil ==> len(c.bindingEntries) == Fcnt(len(L0)) && forall j int :: 0 <= j && j < len(L0) && kept(L0[j]) ==> c.bindingEntries[Fcnt(j)] == old(L0[j])
+//@   ensures[C10,C06,C09] events: remoteEntity != nil ==> evn == old(evn) + (len(L0) - Fcnt(len(L0)))
 //@   modifies c.bindingEntries, @PUBLISH, held
 //@   loop 0 invariant acc: newBindingEntries == nil || freshPre(newBindingEntries)
 //@   loop 0 invariant frame: unchangedPre(*api.BindingEntry) && unchangedPre(api.BindingEntry) && unchangedPre(model.FeatureAddressType) && unchangedPre(model.EntityAddressType) && unchangedPre(api.EventPayload)
@@ -149,6 +150,7 @@ package spine
 //@   loop 0 invariant len: len(newBindingEntries) == Fcnt($k)
 //@   loop 0 invariant elems: forall j int :: 0 <= j && j < $k && kept($s[j]) ==> newBindingEntries[Fcnt(j)] == $s[j]
 //@   loop 0 invariant events: evn == pre(evn) + ($k - Fcnt($k))
+//@   loop 0 invariant locked: held(c.mux)
 
 // ---------------------------------------------------------------------------------------
 // subscription registry (C08, C10)
@@ -214,9 +216,9 @@ package spine
 //@   let L0 = c.subscriptionEntries
 //@   define kept(e) = !onEntityAddr(e.ClientFeature, remoteEntity)
 //@   filter F loop 0 src L0 keep kept
-//@   ensures[C10,C06] nil-noop: remoteEntity == nil ==> c.subscriptionEntries == L0 && evn == old(evn)
-//@   ensures[C10,C06] view: remoteEntity != nil ==> len(c.subscriptionEntries) == Fcnt(len(L0)) && forall j int :: 0 <= j && j < len(L0) && kept(L0[j]) ==> c.subscriptionEntries[Fcnt(j)] == old(L0[j])
-//@   ensures[C10,C06] events: remoteEntity != nil ==> evn == old(evn) + (len(L0) - Fcnt(len(L0)))
+//@   ensures[C10,C06,C08] nil-noop: remoteEntity == nil ==> c.subscriptionEntries == L0 && evn == old(evn)
+//@   ensures[C10,C06,C08] view: remoteEntity != nil ==> len(c.subscriptionEntries) == Fcnt(len(L0)) && forall j int :: 0 <= j && j < len(L0) && kept(L0[j]) ==> c.subscriptionEntries[Fcnt(j)] == old(L0[j])
+//@   ensures[C10,C06,C08] events: remoteEntity != nil ==> evn == old(evn) + (len(L0) - Fcnt(len(L0)))
 //@   modifies c.subscriptionEntries, @PUBLISH, held
 //@   loop 0 invariant acc: newSubscriptionEntries == nil || freshPre(newSubscriptionEntries)
 //@   loop 0 invariant frame: unchangedPre(*api.SubscriptionEntry) && unchangedPre(api.SubscriptionEntry) && unchangedPre(model.FeatureAddressType) && unchangedPre(model.EntityAddressType) && unchangedPre(api.EventPayload)
